@@ -51,6 +51,21 @@ def legal_modes(cfg):
     return ms
 
 
+def impdef_switches(rng, p=0.25):
+    """IMPLEMENTATION DEFINED choices of arm_configurations.json, each flipped away from the shipped value with probability p.  None of them
+    may change anything the properties speak about (they select syndrome details, UNKNOWN bits, attribute hints)"""
+    out = {}
+    for key, val in (('write_hsr_hsr_value_24', True), ('write_hsr_23_22_cond', False), ('dfsr_string_12', 0), ('data_abort_hsr_9', 1),
+                     ('data_abort_pmsa_change_dfar', False), ('translation_walk_sd_l1descaddr_attrs_10', False),
+                     ('translation_walk_sd_l1descaddr_hints_01', False), ('coproc_accepted_pl0_undefined', False),
+                     ('implementation_supports_transient', True)):
+        if rng.random() < p:
+            out[key] = val
+    if rng.random() < p:
+        out['processor_id'] = rng.randrange(1, 4)
+    return out
+
+
 def random_config(rng, allow_virt=True, allow_lpae=True, archs=(6, 7, 7, 7, 5), extras=False):
     cfg = {'arch_version': rng.choice(archs)}
     sec = rng.random() < 0.7
@@ -81,6 +96,9 @@ def random_config(rng, allow_virt=True, allow_lpae=True, archs=(6, 7, 7, 7, 5), 
             cfg['have_mp_ext'] = True
         if rng.random() < 0.05:
             cfg['arch_version'] = 4 if not virt else 7
+        if rng.random() < 0.08:
+            cfg['have_adv_simd_or_vfp'] = True
+        cfg.update(impdef_switches(rng))
     return cfg
 
 
